@@ -257,12 +257,15 @@ def equal_molecules(ctx, rule):
         # ... and as the two molecules they ARE, wherever they sit: adjacent, or with a bystander molecule between them
         # (energy conserved, one record per individual, the bystander and its record untouched)
         bad = []
-        for tags, kes, ridx in ((("dup", "dup", "i2"), [2.0, 3.0, 1.0], [0, 1]), (("dup", "i1", "dup"), [2.0, 1.0, 3.0], [0, 2]), (("i0", "dup", "dup"), [1.0, 2.0, 3.0], [1, 2])):
+        # (last row: the BYSTANDER holds an individual equal to the reactants too - it is a third molecule and stays)
+        for tags, kes, ridx in ((("dup", "dup", "i2"), [2.0, 3.0, 1.0], [0, 1]), (("dup", "i1", "dup"), [2.0, 1.0, 3.0], [0, 2]), (("i0", "dup", "dup"), [1.0, 2.0, 3.0], [1, 2]),
+                                (("dup", "dup", "dup"), [2.0, 3.0, 1.0], [0, 1])):
             pop = [indiv(t, 5.0 if t == "dup" else 6.0) for t in tags]
             paths, home_buf, mols = evaluate(F, fn, me, pop, kes, [pop[ridx[0]], pop[ridx[1]]], products, 8.0, fields_mol)
-            label = "container %s (the two `dup` molecules hold equal individuals), reactants = molecules %d and %d" % (list(tags), ridx[0], ridx[1])
-            check_paths(paths, home_buf, pop, mols, 8.0, label, fields_mol, bad, ridx)
-            by = [t for t in tags if t != "dup"][0]
+            label = "container %s (the `dup` molecules hold equal individuals), reactants = molecules %d and %d" % (list(tags), ridx[0], ridx[1])
+            by = ([t for t in tags if t != "dup"] or ["dup"])[0]
+            # (records are matched to individuals by tag: with an equal bystander that alignment is not readable, counts are)
+            check_paths(paths, home_buf, pop, mols, 8.0, label, fields_mol, bad, ridx if by != "dup" else [0, 1, 2])
             for p in paths:
                 if p.end == "return" and isinstance(p.ret, Agg) and p.ret.variant == "Ok":
                     left = [getattr(x.fields[0], "tag", "?") for x in p.mstate["heap"].get("pop", ())]
